@@ -671,7 +671,9 @@ pub fn run_c18(tier: Tier, seed: u64) -> i32 {
         "first PV move is compared by from/to squares (PV tokens carry no promotion letter by design of the engine's output)".into(),
     ];
     let h = ZobristHasher::create_zobrist_hasher();
-    let roots = search_roots(seed ^ 0x18, tier.pick(24usize, 200), &h, false);
+    let mut roots = search_roots(seed ^ 0x18, tier.pick(24usize, 200), &h, false);
+    // single-reply and two-reply roots (the root loop's special cases)
+    roots.extend(few_move_roots(seed ^ 0x18, tier.pick(8, 60), &h));
     let mut jobs: Vec<(usize, u8)> = Vec::new();
     for (i, r) in roots.iter().enumerate() {
         let pieces = r.hist.end.sq.iter().filter(|x| x.is_some()).count();
